@@ -15,6 +15,8 @@ def typed(v):
         return ["i", str(v)]
     if isinstance(v, float):
         return ["f", repr(v)]
+    if type(v).__name__ == "Decimal":
+        return ["d", str(v)]
     if isinstance(v, str):
         return ["s", v]
     if isinstance(v, (list, tuple)):
